@@ -1,4 +1,11 @@
-/- dsmodel_hll: model driver stub (filled in when the family is built). -/
-def main (_args : List String) : IO UInt32 := do
-  IO.eprintln "dsmodel_hll: not built yet"
-  return 2
+/- dsmodel_hll: `hll` = sketch / union histories (C03, C04), `coupon` = hash + canonicalisation + coupon tie and input pool. -/
+import DSModel.Hll.Driver
+import DSModel.Hll.GenParams
+import DSModel.DriverLoop
+open DS DS.Hll
+
+def main (args : List String) : IO UInt32 := do
+  match args with
+  | ["hll"] => runDriver (#[] : Objs) (stepLine { p := hllParams, t := hllTables })
+  | ["coupon"] => runDriver () (fun _ w => ((), couponLine hllParams w))
+  | _ => IO.eprintln "usage: dsmodel_hll hll|coupon"; return 2
